@@ -248,3 +248,9 @@ PROP = with_src(C07(), share=10, functions=[
                           "Src._repair_python_full_version_translated", "Src._repair_python_full_version_eq_model",
                           "Src.format_full_version_translated", "Src.format_full_version_eq_model",
                           "Src.Marker.evaluate_translated", "Src.Marker.evaluate_eq_model"] + MARKER_PARSE_THEOREMS)
+
+# x9: the methods of the tokenizer all three grammars run on (`check/read/expect/consume/raise_syntax_error`, `enclosing_tokens` cut at
+# its `yield`) are translated from `_tokenizer.py` and proved equal to the primitives of PkgModel/PyTok.lean that the translated parser
+# functions call — the digest guard on the class is gone, an edit of a method is a failed proof obligation here
+from srccall import X9_TOK_FUNCS, X9_TOK_THEOREMS, X9_TOK_MODULE  # noqa: E402
+PROP = with_src(PROP, share=10, functions=X9_TOK_FUNCS, module=[X9_TOK_MODULE], theorems=X9_TOK_THEOREMS)
